@@ -584,6 +584,23 @@ def F39():
                 f"through it act on every measurement (every filter in database.py is written `if measurement:`)")
 
 
+def F40():
+    import operator
+    later = datetime(2021, 1, 1, tzinfo=timezone.utc)
+    out = {}
+    for auto in (True, False):
+        db = TinyFlux(storage=MemoryStorage, auto_index=auto)
+        db.insert(Point(time=T0, fields={"a": 1}))
+        for name, q in (("test(operator.lt, later)", TimeQuery().test(operator.lt, later)), ("== None", TimeQuery() == None), ("!= None", TimeQuery() != None)):  # noqa: E711
+            try:
+                out[(auto, name)] = db.count(q)
+            except Exception as e:  # noqa
+                out[(auto, name)] = type(e).__name__
+    bad = {n: (out[(True, n)], out[(False, n)]) for (a, n) in out if a and out[(True, n)] != out[(False, n)]}
+    if bad:
+        return f"time tests answered differently by the index and by a storage scan (index, scan): {bad}"
+
+
 ALL = [k for k in list(globals()) if re.fullmatch(r"F\d+[a-c]?", k)]
 
 if __name__ == "__main__":
